@@ -8,7 +8,7 @@ import itertools
 from mc import lib, refdata, obo
 
 PROPERTY = 'C15'
-RULE = ('full product: ordered selections of <=T distinct keys from {C,Ce,e,H,He,N,n,Na,p,P,D,T,13C,2H,15N,S,Se,Cl} x counts '
+RULE = ('full product: ordered selections of <=T distinct keys from {C,Ce,e,H,He,N,n,Na,p,P,D,T,13C,2H,15N,S,Se,Cl,2D,3T,3H} x counts '
         '{-200,-2,-1,0,1,2,12,500,0.5,-1.25,0.0001} (all counts for 1-2 terms, a reduced count set for 3+) x separators '
         "{'',' ','|'} x hill_order; every element of the table with count 2; additivity over all ordered pairs of 60 "
         'written formulas; glycans: all 27 names singly, all ordered pairs and triples over 12 prefix-confusable names x '
@@ -17,7 +17,7 @@ ASSUMPTIONS = ['counts have at most 4 decimal places (str() of smaller floats us
                'glycan round trip is required only when the own tokenizer finds exactly one complete tokenization of the '
                'written string over all names and synonyms', 'mass reference: frozen NIST table']
 
-KEYS = ['C', 'Ce', 'e', 'H', 'He', 'N', 'n', 'Na', 'p', 'P', 'D', 'T', '13C', '2H', '15N', 'S', 'Se', 'Cl']
+KEYS = ['C', 'Ce', 'e', 'H', 'He', 'N', 'n', 'Na', 'p', 'P', 'D', 'T', '13C', '2H', '15N', 'S', 'Se', 'Cl', '2D', '3T', '3H']
 COUNTS = [-200, -2, -1, 0, 1, 2, 12, 500, 0.5, -1.25, 0.0001]
 COUNTS3 = [-2, 0, 1, 12, 0.5]
 SEPS = ['', ' ', '|']
@@ -72,8 +72,11 @@ def nz(c):
     return {k: v for k, v in c.items() if v != 0}
 
 
+ALIAS = {'2D': 'D', '3T': 'T'}      # the bundled table lists deuterium and tritium under these keys as well
+
+
 def ref_mass(comp, mono=True):
-    return sum(refdata.atom_mass(k, mono) * v for k, v in comp.items())
+    return sum(refdata.atom_mass(ALIAS.get(k, k), mono) * v for k, v in comp.items())
 
 
 _mono_cache = {}
@@ -232,6 +235,12 @@ def check(case, ctx):
                         ctx.fail('glycan-comp', expc, gc, formula=s)
                     if st2 != 'ok' or not lib.close(gm, ref_mass(expc), 1e-3):
                         ctx.fail('glycan-mass', ref_mass(expc), gm, formula=s)
+                    # average mass: the same count-weighted sum, identically for names and synonyms, strings and dicts
+                    for arg in (s, {nme: cnt}):
+                        st3, ga = lib.call(p.glycan_mass, arg, False)
+                        ctx.evals += 1
+                        if st3 != 'ok' or not lib.close(ga, ref_mass(expc, False), 2e-3 * cnt + 1e-5 * abs(ref_mass(expc, False))):
+                            ctx.fail('glycan-mass-average', ref_mass(expc, False), ga, formula=arg)
                 st, d1 = lib.call(p.glycan_comp, {nme: 2})
                 if st != 'ok' or nz(d1) != nz({k: v * 2 for k, v in comp.items()}):
                     ctx.fail('glycan-comp-dict', {k: v * 2 for k, v in comp.items()}, d1, name=nme)
@@ -264,6 +273,12 @@ def check(case, ctx):
                     ctx.fail('glycan-comp', nz(expc), gc, written=w)
                 if st2 != 'ok' or not lib.close(gm, ref_mass(nz(expc)), 1e-3 * max(1, sum(abs(c) for c in gl.values()))):
                     ctx.fail('glycan-mass', ref_mass(nz(expc)), gm, written=w)
+        for mono in (True, False):
+            st, gm = lib.call(p.glycan_mass, dict(gl), mono)
+            ctx.evals += 1
+            ref = ref_mass(nz(expc), mono)
+            if st != 'ok' or not lib.close(gm, ref, (1e-3 if mono else 2e-3) * max(1, sum(abs(c) for c in gl.values())) + 1e-5 * abs(ref)):
+                ctx.fail('glycan-mass-dict', ref, gm, glycan=gl, monoisotopic=mono)
         st, gc = lib.call(p.glycan_comp, dict(gl))
         ctx.evals += 1
         if st != 'ok' or nz(gc) != nz(expc):
